@@ -22,6 +22,14 @@ from .core import derive  # noqa: E402
 from .tiers import TIERS, META  # noqa: E402
 
 
+def fast_digest_cases(case_digests):
+    """One digest for the whole run: independent of worker count and of which worker ran which case."""
+    h = hashlib.sha256()
+    for k in sorted(case_digests):
+        h.update(("%d:%s;" % (k, case_digests[k])).encode())
+    return h.hexdigest()[:16]
+
+
 def d42_src():
     return os.environ.get("D42_SRC", "/repo")
 
@@ -371,6 +379,7 @@ def run_check(pid, tier, seed, workers=None, cases=None, quiet=False):
             "probes": probes,
             "world_counters": wstats,
             "workers": W, "pythonhashseeds": hs,
+            "run_digest": fast_digest_cases(case_digests),
             "determinism_selftest": {"cases_compared_across_interpreters": det["compared"],
                                       "mismatches": len(det["mismatches"]),
                                       "other_hashseed": 987654321},
